@@ -141,7 +141,9 @@ fn mk(c: &C06Case, steps: Vec<Step>, start_at: u64, t: u64) -> JobCase {
 		ChildSpec {
 			self_exit: c.self_exit_after_t.map(|d| (t - start_at) as u32 + d),
 			code: 3,
-			react: c.react.map_or(React::Ignore, React::ExitAfter),
+			// for a signal number the OS layer cannot represent, whether anything is delivered is
+			// unspecified: use a child whose behaviour does not depend on it
+			react: if sig(c.sig).1 < 0 { React::Ignore } else { c.react.map_or(React::Ignore, React::ExitAfter) },
 		}
 	};
 	JobCase {
@@ -228,7 +230,7 @@ pub fn run(c: &C06Case) -> Outcome {
 	// --- the main case: a process is running and the job task is idle at t
 	let natural: Option<u64> = {
 		let mut x: Option<u64> = c.self_exit_after_t.map(|d| t + u64::from(d));
-		let reacts = if n == 9 { Some(0) } else if n == 19 { None } else { c.react };
+		let reacts = if n == 9 { Some(0) } else if n == 19 || n < 0 { None } else { c.react };
 		if let Some(d) = reacts {
 			let r = t + u64::from(d);
 			x = Some(x.map_or(r, |v| v.min(r)));
@@ -274,7 +276,11 @@ pub fn run(c: &C06Case) -> Outcome {
 		Ev::Signal { child: 0, .. } | Ev::StartKill { child: 0, .. } | Ev::WaitDone { child: 0, .. } => true,
 		_ => false,
 	});
+	if n < 0 {
+		o.label("unrepresentable-signal");
+	}
 	match first0 {
+		_ if n < 0 => {}
 		Some(r) if r.ms() == t && matches!(r.ev, Ev::Signal { child: 0, sig: s, ok: true, .. } if s == n) => {}
 		other => {
 			o.fail(
@@ -345,7 +351,7 @@ pub fn run(c: &C06Case) -> Outcome {
 		if let Follower::Signal(s) = f {
 			// a queued signal() must not reach the old process during the grace period
 			let sn = if sig(*s).1 == 9 { 10 } else { sig(*s).1 };
-			if sn != n && trace.log.iter().any(|r| matches!(r.ev, Ev::Signal { child: 0, sig: x, .. } if x == sn)) && *at < end_lo {
+			if n >= 0 && sn != n && trace.log.iter().any(|r| matches!(r.ev, Ev::Signal { child: 0, sig: x, .. } if x == sn)) && *at < end_lo {
 				o.fail("normal-control-not-held-back", format!("signal({sn}) sent at {at} ms was delivered to the old process (ended {end_lo}){}", dump()));
 				return o;
 			}
@@ -416,7 +422,7 @@ fn strategy() -> BoxedStrategy<C06Case> {
 			(
 				prop_oneof![1 => Just(0u8), 8 => Just(1), 1 => Just(2), 2 => Just(3)],
 				0u8..3,
-				0u8..10,
+				prop_oneof![8 => 0u8..10, 1 => 10u8..13],
 				Just(g),
 				proptest::option::weighted(0.7, around.clone()),
 				proptest::option::weighted(0.2, around.clone()),
